@@ -96,14 +96,42 @@ structure Lam where
   sig : Sig
   aux : List (String × Expr)
   body : Expr
+  /-- the captured variables of a `defun` evaluated inside a `let` (`Lambda.Closure`): a body sees its
+      parameters first, then these -/
+  env : List (String × Val) := []
   deriving Repr
 
 /-- a definition with required parameters only -/
-def Lam.simple (ps : List String) (b : Expr) : Lam := ⟨⟨ps, [], []⟩, [], b⟩
+def Lam.simple (ps : List String) (b : Expr) : Lam := ⟨⟨ps, [], []⟩, [], b, []⟩
 
 /-- name-keyed function table; the newest definition of a name is found first -/
 abbrev FunTable := List (String × Lam)
 abbrev Env := List (String × Val)
+
+/-! ### function names: symbols are case-insensitive and may carry a package prefix -/
+
+def lowerChar (c : Char) : Char := if 'A' ≤ c ∧ c ≤ 'Z' then Char.ofNat (c.toNat + 32) else c
+
+/-- what follows the last `:` (`pkg:name`, `pkg::name`) -/
+def afterColon : List Char → List Char → List Char
+  | [], acc => acc.reverse
+  | c :: cs, acc => if c = ':' then afterColon cs [] else afterColon cs (c :: acc)
+
+/-- the key under which a function name is defined, looked up, registered as a placeholder and
+    removed: lower case, without the package prefix (all generated names live in one package) -/
+def norm (s : String) : String := String.ofList (afterColon (s.toList.map lowerChar) [])
+
+/-- the bindings of a `let` around a `defun`: every init form is evaluated in the outer (empty)
+    environment -/
+def evalBinds {α : Type} (ev : α → Out) : List (String × α) → Except Out (List (String × Val))
+  | [] => .ok []
+  | (x, a) :: rest =>
+    match ev a with
+    | .val v =>
+      match evalBinds ev rest with
+      | .ok env => .ok ((x, v) :: env)
+      | .error o => .error o
+    | o => .error o
 
 /-! ### binding the argument values of a call (`Lambda.Call`) -/
 
@@ -188,22 +216,23 @@ def eval (Φ : FunTable) : Nat → Env → Expr → Out
       | .val vv => eval Φ n ((x, vv) :: env) b
       | o => o
     | .call f args =>
-      match Φ.lookup f with
-      | none => .err (.undefinedFunction f)
+      match Φ.lookup (norm f) with
+      | none => .err (.undefinedFunction (norm f))
       | some lam =>
         match evalList (fun a => eval Φ n env a) args with
         | .error o => o
         | .ok vs =>
           match bindArgs lam.sig vs with
-          | none => .err (.arity f)
+          | none => .err (.arity (norm f))
           | some env₀ =>
-            match evalAux (fun env' a => eval Φ n env' a) env₀ lam.aux with
+            match evalAux (fun env' a => eval Φ n env' a) (env₀ ++ lam.env) lam.aux with
             | .error o => o
             | .ok env₁ => eval Φ n env₁ lam.body
 
 /-- top-level forms of a history -/
 inductive Form where
-  | defun (f : String) (lam : Lam)
+  | defun (f : String) (binds : List (String × Expr)) (lam : Lam)
+      -- `(defun f …)`, or `(let (binds) (defun f …))`: the definition captures the bindings
   | undef (f : String)     -- `(fmakunbound 'f)`
   | expr (e : Expr)
   | again (j : Nat)        -- evaluate once more the j-th expression form evaluated so far
@@ -215,8 +244,11 @@ def undefTable (Φ : FunTable) (f : String) : FunTable := Φ.filter (fun p => p.
 /-- `run`: the meaning of a history. `hist` = the expression forms evaluated so far. -/
 def run (fuel : Nat) : FunTable → List Expr → List Form → List Out
   | _, _, [] => []
-  | Φ, hist, .defun f lam :: rest => .val (.sym f) :: run fuel ((f, lam) :: Φ) hist rest
-  | Φ, hist, .undef f :: rest => .val (.sym f) :: run fuel (undefTable Φ f) hist rest
+  | Φ, hist, .defun f binds lam :: rest =>
+    match evalBinds (fun e => eval Φ fuel [] e) binds with
+    | .ok env => .val (.sym (norm f)) :: run fuel ((norm f, { lam with env := env }) :: Φ) hist rest
+    | .error o => o :: run fuel Φ hist rest
+  | Φ, hist, .undef f :: rest => .val (.sym (norm f)) :: run fuel (undefTable Φ (norm f)) hist rest
   | Φ, hist, .expr e :: rest => eval Φ fuel [] e :: run fuel Φ (hist ++ [e]) rest
   | Φ, hist, .again j :: rest =>
     match hist[j]? with
@@ -245,6 +277,7 @@ structure CLam where
   sig : Sig
   aux : List (String × Code)
   body : Code
+  env : List (String × Val)
   deriving Repr
 
 /-- `names`: `Package.funcs`/`Package.lambdas` (name → cell); `cells[i] = none` is a placeholder
@@ -291,8 +324,8 @@ def evalCode (σ : Store) : Nat → Env → Code → Out
       | .val vv => evalCode σ n ((x, vv) :: env) b
       | o => o
     | .call r f args =>
-      match σ.target r f with
-      | none => .err (.undefinedFunction f)
+      match σ.target r (norm f) with
+      | none => .err (.undefinedFunction (norm f))
       | some i =>
         match σ.cells[i]? with
         | some (some lam) =>
@@ -300,12 +333,12 @@ def evalCode (σ : Store) : Nat → Env → Code → Out
           | .error o => o
           | .ok vs =>
             match bindArgs lam.sig vs with
-            | none => .err (.arity f)
+            | none => .err (.arity (norm f))
             | some env₀ =>
-              match evalAux (fun env' a => evalCode σ n env' a) env₀ lam.aux with
+              match evalAux (fun env' a => evalCode σ n env' a) (env₀ ++ lam.env) lam.aux with
               | .error o => o
               | .ok env₁ => evalCode σ n env₁ lam.body
-        | _ => .err (.undefinedFunction f)      -- placeholder cell: `Undefined(name)`
+        | _ => .err (.undefinedFunction (norm f))      -- placeholder cell: `Undefined(name)`
 
 /-! ### compilation -/
 
@@ -334,7 +367,7 @@ def callees : Expr → List String
   | .prim _ a b => callees a ++ callees b
   | .ite _ _ _ => []
   | .let1 _ _ _ => []
-  | .call f args => f :: calleesList args
+  | .call f args => norm f :: calleesList args
 def calleesList : List Expr → List String
   | [] => []
   | a :: as => callees a ++ calleesList as
@@ -354,7 +387,7 @@ def resolve (σ : Store) : Expr → Code
   | .prim op a b => .prim op (resolve σ a) (resolve σ b)
   | .ite c t e => .ite (embed c) (embed t) (embed e)
   | .let1 x v b => .let1 x (embed v) (embed b)
-  | .call f args => .call (refOf σ f) f (resolveList σ args)      -- the arguments are kept
+  | .call f args => .call (refOf σ (norm f)) f (resolveList σ args)      -- the arguments are kept
 def resolveList (σ : Store) : List Expr → List Code
   | [] => []
   | a :: as => resolve σ a :: resolveList σ as
@@ -381,11 +414,11 @@ def embedAux : List (String × Expr) → List (String × Code)
 
 /-- `defun`: compile the body (`Lambda.Compile`), then patch the name's cell in place
     (`Package.DefLambda`); a name without a cell gets one. -/
-def define (σ : Store) (f : String) (lam : Lam) : Store :=
+def define (σ : Store) (f : String) (lam : Lam) : Store :=   -- `f`: the normalised name
   let (cb, σ₁) := compile σ lam.body
   let σ₂ := declare σ₁ f
   match σ₂.cellOf f with
-  | some i => ⟨σ₂.names, σ₂.cells.set i (some ⟨lam.sig, embedAux lam.aux, cb⟩)⟩
+  | some i => ⟨σ₂.names, σ₂.cells.set i (some ⟨lam.sig, embedAux lam.aux, cb, lam.env⟩)⟩
   | none => σ₂
 
 /-- `fmakunbound`: the name keeps its cell (call sites compiled earlier point to it, a later `defun`
@@ -408,7 +441,7 @@ def cacheAll (σ : Store) : Code → Code
   | .let1 x v b => .let1 x (cacheAll σ v) (cacheAll σ b)
   | .call r f args =>
     .call (match r with
-           | .late => refOf σ f
+           | .late => refOf σ (norm f)
            | .cell i => .cell i) f (cacheAllList σ args)
 def cacheAllList (σ : Store) : List Code → List Code
   | [] => []
@@ -420,8 +453,12 @@ end
     rewritten by the caching of the previous evaluation). -/
 def runC (fuel : Nat) : Store → List Code → List Form → List Out
   | _, _, [] => []
-  | σ, objs, .defun f lam :: rest => .val (.sym f) :: runC fuel (define σ f lam) objs rest
-  | σ, objs, .undef f :: rest => .val (.sym f) :: runC fuel (undefine σ f) objs rest
+  | σ, objs, .defun f binds lam :: rest =>
+    -- the bindings of the enclosing `let` are list forms evaluated when the form is reached
+    match evalBinds (fun e => evalCode σ fuel [] (embed e)) binds with
+    | .ok env => .val (.sym (norm f)) :: runC fuel (define σ (norm f) { lam with env := env }) objs rest
+    | .error o => o :: runC fuel σ objs rest
+  | σ, objs, .undef f :: rest => .val (.sym (norm f)) :: runC fuel (undefine σ (norm f)) objs rest
   | σ, objs, .expr e :: rest =>
     let (c, σ') := compile σ e
     evalCode σ' fuel [] c :: runC fuel σ' (objs ++ [cacheAll σ' c]) rest
